@@ -1,1 +1,208 @@
 // Kani contract harnesses for /repo/parquet/src/util/push_buffers.rs (child module: sees private items via super::)
+use super::*;
+#[path = "/verif/kani/support/spec.rs"]
+mod spec;
+use spec::*;
+use std::io::Read;
+
+// ---------------------------------------------------------------------------------------------
+// C14: PushBuffers is the byte store behind the push decoders; what a decoder sees must depend only on
+// WHICH file ranges were pushed, not on the order, duplication or overlap of the pushes.
+// Model: an 8-byte "file" with arbitrary contents; each pushed buffer is file[range].
+// Grid rule: range bounds are concrete per harness (symbolic bounds size Bytes allocations: 43 GB);
+// file contents, push ORDER (a solver-chosen permutation), the query and the read offset are symbolic.
+// Every Bytes-bearing value is forgotten (forget rule).
+// Stub: alloc::fmt::format (error text is not part of the contract).
+// ---------------------------------------------------------------------------------------------
+
+fn push(pb: &mut PushBuffers, file: &[u8; 8], s: u64, e: u64) {
+    let b = Bytes::copy_from_slice(&file[s as usize..e as usize]);
+    let r = pb.push_range(s..e, b);
+    assert!(r.is_ok());
+    std::mem::forget(r);
+}
+
+/// checks has_range / get_bytes / Read / get_read against the set semantics for the pushed set `rs`
+fn check_queries<const K: usize>(pb: &PushBuffers, file: &[u8; 8], rs: [(u64, u64); K]) {
+    // an arbitrary well-formed query inside the file
+    let qs: u64 = kani::any();
+    let qe: u64 = kani::any();
+    kani::assume(qs <= qe && qe <= 8);
+    let mut inside = false;
+    let mut k = 0;
+    while k < K {
+        if rs[k].0 <= qs && qe <= rs[k].1 {
+            inside = true;
+        }
+        k += 1;
+    }
+    // has_range(q) <=> some pushed range contains q
+    assert!(pb.has_range(&(qs..qe)) == inside);
+    // get_bytes(q) = file[q] iff contained; otherwise the typed "need more data" error naming q
+    let len = (qe - qs) as usize;
+    let got = pb.get_bytes(qs, len);
+    match &got {
+        Ok(b) => {
+            assert!(inside);
+            assert!(b.len() == len);
+            let i: usize = kani::any();
+            kani::assume(i < len);
+            assert!(b[i] == file[qs as usize + i]);
+        }
+        Err(ParquetError::NeedMoreDataRange(r)) => {
+            assert!(!inside);
+            assert!(r.start == qs && r.end == qe);
+        }
+        Err(_) => assert!(false),
+    }
+    kani::cover!(got.is_ok() && len == 0);
+    kani::cover!(got.is_ok() && len > 0);
+    kani::cover!(got.is_err());
+    std::mem::forget(got);
+    // Read on a positioned clone: fills the whole buffer with file[qs..qe] and advances, or fails with
+    // UnexpectedEof leaving offset and output untouched
+    let mut rd = match pb.get_read(qs) {
+        Ok(r) => r,
+        Err(_) => {
+            assert!(false);
+            return;
+        }
+    };
+    assert!(rd.offset == qs && rd.file_len() == pb.file_len());
+    let init: [u8; 8] = kani::any();
+    let mut out = init;
+    let r = rd.read(&mut out[..len]);
+    match &r {
+        Ok(n) => {
+            assert!(inside && *n == len && rd.offset == qe);
+            let i: usize = kani::any();
+            kani::assume(i < 8);
+            assert!(out[i] == if i < len { file[qs as usize + i] } else { init[i] });
+        }
+        Err(e) => {
+            assert!(!inside && e.kind() == std::io::ErrorKind::UnexpectedEof);
+            assert!(rd.offset == qs);
+            let i: usize = kani::any();
+            kani::assume(i < 8);
+            assert!(out[i] == init[i]);
+        }
+    }
+    std::mem::forget(r);
+    std::mem::forget(rd);
+}
+
+/// pushes the K concrete ranges in a solver-chosen order, then checks the queries
+fn pushed_set<const K: usize>(rs: [(u64, u64); K]) {
+    let file: [u8; 8] = kani::any();
+    let mut pb = PushBuffers::new(8);
+    assert!(pb.file_len() == 8 && crate::file::reader::Length::len(&pb) == 8);
+    // solver-chosen permutation of 0..K
+    let mut order = [0usize; K];
+    let mut used = [false; K];
+    let mut k = 0;
+    while k < K {
+        let c: usize = kani::any();
+        kani::assume(c < K && !used[c]);
+        used[c] = true;
+        order[k] = c;
+        k += 1;
+    }
+    let mut k = 0;
+    while k < K {
+        let (s, e) = rs[order[k]];
+        push(&mut pb, &file, s, e);
+        k += 1;
+    }
+    check_queries(&pb, &file, rs);
+    kani::cover!(K > 1 && order[0] == K - 1);
+    kani::cover!(order[0] == 0);
+    // clear_all_ranges forgets everything
+    let mut pb2 = pb.clone();
+    pb2.clear_all_ranges();
+    let qs: u64 = kani::any();
+    let qe: u64 = kani::any();
+    kani::assume(qs <= qe && qe <= 8);
+    assert!(!pb2.has_range(&(qs..qe)));
+    std::mem::forget(pb2);
+    std::mem::forget(pb);
+}
+
+macro_rules! push_grid {
+    ($name:ident, $rs:expr) => {
+        #[kani::proof]
+        #[kani::unwind(5)]
+        #[kani::stub(alloc::fmt::format, stub_format)]
+        fn $name() {
+            pushed_set($rs)
+        }
+    };
+}
+// Contract (C14): for the pushed range set below (any push order, arbitrary file contents):
+// has_range(q) <=> some pushed range contains q, for every q inside the file; get_bytes(q) = file[q] when
+// contained and Err(NeedMoreDataRange(q)) otherwise; Read on get_read(q.start) delivers file[q] and
+// advances, or UnexpectedEof without side effect; clear_all_ranges empties the store.
+// @unit name=push_disjoint props=C14 kind=bounded bound=ranges_{0..3,5..8}_file=8_bytes fns=PushBuffers::push_range,PushBuffers::has_range,PushBuffers::get_bytes,PushBuffers::get_read,PushBuffers::read,PushBuffers::clear_all_ranges,PushBuffers::new,PushBuffers::file_len timeout=480 mem=4
+push_grid!(push_disjoint, [(0, 3), (5, 8)]);
+// @unit name=push_adjacent props=C14 kind=bounded bound=ranges_{0..4,4..8}_file=8_bytes fns=PushBuffers::push_range,PushBuffers::has_range,PushBuffers::get_bytes,PushBuffers::get_read,PushBuffers::read timeout=480 mem=4
+push_grid!(push_adjacent, [(0, 4), (4, 8)]);
+// @unit name=push_overlapping props=C14 kind=bounded bound=ranges_{1..5,3..7}_file=8_bytes fns=PushBuffers::push_range,PushBuffers::has_range,PushBuffers::get_bytes,PushBuffers::get_read,PushBuffers::read timeout=480 mem=4
+push_grid!(push_overlapping, [(1, 5), (3, 7)]);
+// @unit name=push_nested_duplicate props=C14 kind=bounded bound=ranges_{2..6,0..8,2..6}_file=8_bytes fns=PushBuffers::push_range,PushBuffers::has_range,PushBuffers::get_bytes,PushBuffers::get_read,PushBuffers::read tier=thorough timeout=900 mem=6
+push_grid!(push_nested_duplicate, [(2, 6), (0, 8), (2, 6)]);
+// @unit name=push_three_mixed props=C14 kind=bounded bound=ranges_{0..2,2..2,1..8}_file=8_bytes fns=PushBuffers::push_range,PushBuffers::has_range,PushBuffers::get_bytes,PushBuffers::get_read,PushBuffers::read tier=thorough timeout=900 mem=6
+push_grid!(push_three_mixed, [(0, 2), (2, 2), (1, 8)]);
+
+// Contract (C14, C18): push_range rejects a buffer whose length differs from the range length (a short
+// read) — Err, and the store is unchanged (the range is NOT advertised by has_range); it accepts exactly
+// when |buffer| = end - start (saturating, so an inverted range only matches an empty buffer).
+// push_ranges rejects mismatched vector lengths. Buffer of concrete length 3; range bounds symbolic.
+// @unit name=push_range_length_check props=C14,C18 kind=bounded bound=buffer=3_bytes fns=PushBuffers::push_range timeout=480 mem=4
+#[kani::proof]
+#[kani::unwind(5)]
+#[kani::stub(alloc::fmt::format, stub_format)]
+fn push_range_length_check() {
+    let data: [u8; 3] = kani::any();
+    let mut pb = PushBuffers::new(100);
+    let s: u64 = kani::any();
+    let e: u64 = kani::any();
+    let r = pb.push_range(s..e, Bytes::copy_from_slice(&data));
+    let matches = e >= s && e - s == 3;
+    assert!(r.is_ok() == matches);
+    assert!(pb.has_range(&(s..e)) == matches);
+    assert!(pb.ranges.len() == pb.buffers.len() && pb.ranges.len() == matches as usize);
+    kani::cover!(matches);
+    kani::cover!(!matches && e > s);
+    kani::cover!(!matches && e < s);
+    std::mem::forget(r);
+    std::mem::forget(pb);
+}
+
+// Contract (C14): push_ranges(ranges, buffers) = push_range on each pair in order; Err (nothing usable
+// promised) when the two vectors differ in length.
+// @unit name=push_ranges_pairs props=C14 kind=bounded bound=2_ranges_{0..3,5..8} fns=PushBuffers::push_ranges timeout=480 mem=4
+#[kani::proof]
+#[kani::unwind(5)]
+#[kani::stub(alloc::fmt::format, stub_format)]
+fn push_ranges_pairs() {
+    let file: [u8; 8] = kani::any();
+    let mut pb = PushBuffers::new(8);
+    let drop_one: bool = kani::any();
+    let ranges = vec![0..3u64, 5..8u64];
+    // (the mismatching case passes no buffers at all, so that no Bytes is dropped inside the callee: forget rule)
+    let mut buffers = Vec::with_capacity(2);
+    if !drop_one {
+        buffers.push(Bytes::copy_from_slice(&file[0..3]));
+        buffers.push(Bytes::copy_from_slice(&file[5..8]));
+    }
+    let r = pb.push_ranges(ranges, buffers);
+    assert!(r.is_ok() == !drop_one);
+    if r.is_ok() {
+        check_queries(&pb, &file, [(0, 3), (5, 8)]);
+    } else {
+        assert!(pb.ranges.is_empty() && pb.buffers.is_empty());
+    }
+    kani::cover!(r.is_ok());
+    kani::cover!(r.is_err());
+    std::mem::forget(r);
+    std::mem::forget(pb);
+}
